@@ -7,12 +7,21 @@
 #                                             n<k> = OctetsStream.Read(make([]byte,k))
 # result: R=<value | E:<error> | PANIC>@<Position()>/<Len()>+<alloc> ; ...
 #         alloc: model = bytes requested from make(); implementation = runtime.MemStats.TotalAlloc delta
+#
+# case:   c12s <stream op> ... | <read op> ...   ONE stream: first C13's vocabulary (w<n> x<hex> r<n> s<whence>:<offset>
+#                                             t z, syntax of vlib/c13.py), then the read ops above
+# result: <c13S trace: ret b=<Bytes()> l=<Len()> p=<Position()> ; ...> || R=<as above>
+#         model = StreamOps.v for the first part, the state translation brg_oct (models/StreamReads.v, proved to make the two
+#         models agree in proofs/OctetsBridge.v), Octets.v readers for the second (theorem c12_reads_safe_after_any_ops)
 import os
 
 from . import common, pure, octets
+from . import c13 as stream_ops  # case syntax, comparison and the independent FIFO reference monitor of the stream-op part
 from .octets import parse_fields, parse_rds, uleb128
 
 ID = "C12"
+PROOFS = octets.PROOFS + ["proofs/OctetsBridge.v", "models/StreamReads.v", "models/StreamOps.v", "proofs/StreamOpsProofs.v",
+                          "lib/GoSlice.v"]
 # one P: the TotalAlloc meter stops the world twice per call, which is cheap only without other Ps
 ENV = dict(os.environ, GOMAXPROCS="1")
 FIXED = {"b": 1, "y": 1, "h": 2, "i": 4, "l": 8}
@@ -35,6 +44,43 @@ def case_parts(case):
 
 
 def compare(case, model, impl, strict=False):
+    if case.startswith("c12s"):
+        return compare_s(case, model, impl, strict)
+    return compare_reads(model, impl, strict)
+
+
+def split_s(case):
+    """'c12s <stream ops> | <read ops>' -> ([stream op tokens], [read op tokens])"""
+    t = case.split()
+    k = t.index("|") if "|" in t else len(t)
+    return t[1:k], t[k + 1:]
+
+
+def split_out_s(out):
+    """'<trace> || <reads part>' -> (trace, reads part) or None"""
+    if " || " not in out:
+        return None
+    a, _, b = out.partition(" || ")
+    return a.strip(), b.strip()
+
+
+def compare_s(case, model, impl, strict=False):
+    pm, pi = split_out_s(model), split_out_s(impl)
+    if pm is None:
+        return "model produced no result (%s)" % model[:100]
+    if pi is None:
+        return "implementation produced no result (%s)" % impl[:100]
+    sops, _ = split_s(case)
+    note = stream_ops.compare("c13S " + " ".join(sops), pm[0], pi[0])
+    if note is not None:
+        return "stream operations: " + note
+    if not pm[1].startswith("R=") or not pi[1].startswith("R="):
+        return None if pm[1] == pi[1] else "read calls: model '%s' vs implementation '%s'" % (pm[1][:60], pi[1][:60])
+    note = compare_reads(pm[1], pi[1], strict)
+    return None if note is None else "read calls after the stream operations: " + note
+
+
+def compare_reads(model, impl, strict=False):
     pm, pi = parse_fields(model), parse_fields(impl)
     if pm is None:
         return "model produced no result (%s)" % model[:100]
@@ -78,16 +124,48 @@ def ref_7bit(data, pos):
 
 def monitor(case, impl):
     """The property text on the implementation's observation, without the model."""
+    if case.startswith("c12s"):
+        return monitor_s(case, impl)
     pi = parse_fields(impl)
     if pi is None:
         return ("panic", "no result / panic outside a read call: " + impl[:200])
     data, ops = case_parts(case)
-    rds = parse_rds(pi["R"])
+    return monitor_reads(data, ops, pi["R"], 0, "")
+
+
+def monitor_s(case, impl):
+    """c12s: C13's FIFO reference monitor on the stream operations (the cursor must stay inside the data after every
+    op), then the C12 monitor on the read calls, started from the Bytes()/Len()/Position() the implementation showed
+    after the last stream op."""
+    pi = split_out_s(impl)
+    if pi is None:
+        return ("panic", "no result / panic outside a call: " + impl[:200])
+    sops, rops = split_s(case)
+    mf = stream_ops.monitor("c13S " + " ".join(sops), pi[0])
+    if mf is not None:
+        # the reads that follow show what the broken cursor does to a decoder
+        tail = ""
+        if pi[1].startswith("R=") and "PANIC@" in pi[1]:
+            tail = "; then read call #%d (%s) panicked" % next((k, op) for k, (op, r) in enumerate(zip(rops, pi[1][2:].split(";"))) if r.startswith("PANIC@"))
+        return ("stream-op-" + mf[0], "after the stream operations: " + mf[1] + tail)
+    if not pi[1].startswith("R="):
+        return ("panic", "read calls not run: " + pi[1][:100])
+    lines = stream_ops.split_trace(pi[0])
+    unread, pos0 = b"", 0
+    if lines:
+        o = stream_ops.parse_line("S", lines[-1])
+        unread, pos0 = bytes.fromhex(o["b"]), int(o["p"])
+    # the bytes in front of the cursor are not observable (and no forward read looks at them)
+    return monitor_reads(bytes(pos0) + unread, rops, pi[1][2:], pos0, "after %d stream ops, " % len(sops))
+
+
+def monitor_reads(data, ops, field, pos0, prefix):
+    rds = parse_rds(field)
     if len(rds) != len(ops):
         return ("result-count", "result count")
-    pos = 0
+    pos = pos0
     for k, (op, (val, npos, ln, alloc)) in enumerate(zip(ops, rds)):
-        what = "call %d (%s at position %d of %d bytes)" % (k, op, pos, len(data))
+        what = prefix + "call %d (%s at position %d of %d bytes)" % (k, op, pos, len(data))
         if val == "GUARD":
             return None  # earlier calls of this run already reported the huge allocation
         if val == "PANIC":
@@ -120,6 +198,13 @@ def monitor(case, impl):
 
 
 def nontrivial(case, model):
+    if case.startswith("c12s"):
+        # a Seek / Tidy / Reset in front of at least one read call that returns data or fails
+        sops, rops = split_s(case)
+        pm = split_out_s(model)
+        if pm is None or not pm[1].startswith("R=") or not rops:
+            return False
+        return any(x[0] in "stz" for x in sops)
     pm = parse_fields(model)
     if pm is None:
         return False
@@ -238,7 +323,50 @@ def gen(rng, tier):
             s = bytes(rng.choice([0, 1, 2, 3, 4]) for _ in range(n))
         sq.append("c12 %s %s" % (hexd(s), " ".join(rand_ops(rng, rng.range(1, 14)))))
     streams.append(("read-sequences", sq))
+    streams.append(("reads-after-seek-tidy-reset", gen_after_ops(rng, quick)))
     return streams
+
+
+# stream ops of C13's vocabulary: two payloads that decode as length-prefixed / 7-bit data, reads, every whence with
+# offsets landing inside, at the ends of, before and behind the data, an invalid whence, Tidy, Reset
+S_ALPHA = ["x0502414207", "x8001", "w3", "r1", "r2", "s0:0", "s0:1", "s0:5", "s0:-1", "s1:1", "s1:-1", "s1:-3",
+           "s2:0", "s2:-1", "s2:1", "s2:-9", "s3:0", "t", "z"]
+S_READS = OPS + ["n0", "n1", "n3"]
+
+
+def gen_after_ops(rng, quick):
+    out = []
+
+    def tail():
+        return "%s %s sy" % (rng.choice(S_READS), rng.choice(S_READS))
+    # bounded-exhaustive: every op sequence up to length 2 (3 in the thorough tier) x three read tails
+    for n in range(0, 3 if quick else 4):
+        for p in stream_ops.product(S_ALPHA, n):
+            for _ in range(3 if n <= 2 else 1):
+                out.append("c12s %s | %s" % (" ".join(p), tail()))
+    for _ in range(3000 if quick else 60000):
+        n = 3 if quick else 4
+        out.append("c12s %s | %s" % (" ".join(rng.choice(S_ALPHA) for _ in range(n)), tail()))
+    # valid encodings, partly consumed, cursor moved back / forward by Seek, optionally compacted, then re-read typed
+    for _ in range(600 if quick else 8000):
+        vals = [("i", rng.range(-5, 5)), ("v", rng.choice([0, 1, 127, 128, 300, -1])), ("B", bytes(rng.below(256) for _ in range(rng.below(5)))),
+                ("h", rng.range(-300, 300)), ("l", rng.range(-(1 << 40), 1 << 40))]
+        vals = [vals[rng.below(len(vals))] for _ in range(rng.range(1, 4))]
+        enc = b"".join(octets.ref_encode(t_, v) for t_, v in vals)
+        k = rng.range(0, len(enc))
+        ops = ["x" + enc.hex(), "r%d" % k]
+        ops.append(rng.choice(["s1:%d" % -k, "s0:0", "s2:%d" % -len(enc), "s1:%d" % rng.range(-k - 2, len(enc) - k + 2),
+                               "s0:%d" % rng.range(-1, len(enc) + 1), "s2:%d" % rng.range(-len(enc) - 1, 1)]))
+        if rng.chance(1, 3):
+            ops.append("t")
+        if rng.chance(1, 4):
+            ops.append("x" + octets.ref_encode("B", b"xyz").hex())
+        reads = [t_ if t_ in "vBS" else rng.choice("sr") + t_ for t_, _ in vals] + rand_ops(rng, rng.below(3))
+        out.append("c12s %s | %s" % (" ".join(ops), " ".join(reads)))
+    # long random op sequences (C13's generator: boundary-biased offsets up to +-2^63), then random read sequences
+    for c in stream_ops.gen_stream_random(rng, 300 if quick else 4000):
+        out.append("c12s %s | %s" % (c[len("c13S "):], " ".join(rand_ops(rng, rng.range(1, 8)))))
+    return out
 
 
 # ---------------------------------------------------------------- vm_compute cross-check
@@ -268,8 +396,39 @@ Print bad.
     return len(items)
 
 
+def coq_crosscheck_s(chk, cases, model_out):
+    items = []
+    for c, m in zip(cases, model_out):
+        pm = split_out_s(m)
+        if pm is None or not pm[1].startswith("R=") or len(c) > 400:
+            continue
+        sops, rops = split_s(c)
+        pseudo = "c13S " + " ".join(sops)
+        flat = stream_ops.flat_of_output("S", pm[0]) + [1]
+        for rd in parse_rds(pm[1][2:]):
+            flat += octets.flat_rd(rd)
+        items.append("(brg_case StmFixed OctFixed %s [%s], %s)" % (stream_ops.coq_ops("S", pseudo), ";".join(octets.coq_op(o) for o in rops),
+                                                                    octets.coq_zlist(["(%d)" % x for x in flat])))
+    if not items:
+        return 0
+    body = octets.COQ_FLAT + """From Got Require Import GoSlice StreamOps StreamReads.
+Definition fl_case (c : list stm_line * option (list (oct_rd oct_val))) : list Z :=
+  flat_map stm_flat_line (fst c) ++ match snd c with Some rs => 1 :: flat_map fl_rd rs | None => [0] end.
+Definition ok (c : (list stm_line * option (list (oct_rd oct_val))) * list Z) : bool := zl_eqb (fl_case (fst c)) (snd c).
+Definition cases := [%s].
+Definition bad := Eval vm_compute in length (filter (fun c => negb (ok c)) cases).
+Print bad.
+""" % ";\n".join(items)
+    out = common.run_coq_eval(body)
+    if "bad = 0%nat" not in out.replace("\n", " "):
+        chk.diverge("vm_compute-vs-extraction", "sample of %d c12s cases" % len(items), out[-300:], "", "extracted OCaml model disagrees with vm_compute")
+    return len(items)
+
+
 # ---------------------------------------------------------------- entry points
 WITNESS = "c12 ffffffff07 B"
+# c12_reads_after_orig_seek_refuted: the pre-fix Seek accepted a position behind the data
+WITNESS_S = "c12s x01020304 s0:10 | sy n1 ri"
 
 
 def run_all(chk, binary, streams):
@@ -318,6 +477,16 @@ def run_all(chk, binary, streams):
     # measured distribution: outcome per kind of call (from the model's results), input lengths, allocating calls
     kinds, lens, allocs = {}, {}, 0
     for c, m in zip(cases, model):
+        if c.startswith("c12s"):
+            ps = split_out_s(m)
+            if ps is None or not ps[1].startswith("R="):
+                continue
+            lens["after-stream-ops"] = lens.get("after-stream-ops", 0) + 1
+            for op, rd in zip(split_s(c)[1], parse_rds(ps[1][2:])):
+                typ = op[-1] if op[0] != "n" else "n"
+                key = "after-ops:" + typ + ":" + (rd[0] if rd[0].startswith("E:") or rd[0] == "PANIC" else "ok")
+                kinds[key] = kinds.get(key, 0) + 1
+            continue
         pm = parse_fields(m)
         if pm is None:
             continue
@@ -348,31 +517,52 @@ def canary(chk, binary):
                              orig_differs=d_orig is not None, fixed_agrees=d_fixed is None)
     if d_orig is None and d_fixed is None:
         chk.diverge("canary", WITNESS, orig, impl, "the pre-fix model (2^31-1 bytes requested) is not distinguished from the implementation: alloc observation too weak")
+    # the pre-fix Seek: the model variant StmOrig leaves the cursor behind the data and the typed Read panics
+    impl = common.run_impl(binary, [WITNESS_S], env=ENV)[0]
+    orig = common.run_model(["c12so" + WITNESS_S[4:]])[0]
+    fixed = common.run_model([WITNESS_S])[0]
+    d_orig = compare(WITNESS_S, orig, impl)
+    d_fixed = compare(WITNESS_S, fixed, impl)
+    chk.cov["canary_reads_after_seek"] = dict(case=WITNESS_S, model_orig_seek=orig, model_fixed=fixed, impl=impl,
+                                              orig_differs=d_orig is not None, fixed_agrees=d_fixed is None,
+                                              orig_model_read_panics="PANIC@" in orig)
+    if d_orig is None or "PANIC@" not in orig:
+        chk.diverge("canary", WITNESS_S, orig, impl, "the pre-fix Seek model (cursor behind the data, Read panics) is not distinguished from the implementation")
 
 
 def run(chk):
     chk.trusted = octets.TRUSTED
-    chk.assumptions = ["position <= len(buffer) at the first call (documented invariant; kept by every read - proved - and by Seek since fix 6fe9801, which is C13's subject)",
+    chk.assumptions = ["position <= len(buffer) at the first call of the per-call theorems (c12_read_*): discharged by c12_reads_safe_after_any_ops for every "
+                       "state reachable from the empty stream by Write/Read/Seek/Tidy/Reset (C13's cursor theorem carried across the proved bridge between "
+                       "the two models of OctetsStream); a stream whose fields were set by other means is outside the theorem",
                        "OctetsStream.Read is called with a buffer of length n >= 0"]
     chk.cov["rule"] = ("case = input byte string + a sequence of read calls of OctetsStream/OctetsReader; streams: every byte string up to length 3 over "
                        "{00,01,0f,10,7f,80,ff} x every read op, lengths 4-5(6) for the 7-bit decoder / length prefix, structure-aware malformed inputs "
                        "(truncated values, over-long 7-bit runs, prefixes larger than the rest up to 2^31-1, negative and non-canonical lengths), random read "
-                       "sequences; non-trivial = some call fails or is a 7-bit / length-prefixed / raw read; distinct = distinct case line")
-    chk.run_proof_gate(octets.PROOFS)
+                       "sequences; reads-after-seek-tidy-reset: c12s cases = a sequence of stream operations (C13's vocabulary: every sequence up to length 2(3) over "
+                       "19 ops incl. seeks before / behind the data and an invalid whence, random length-3(4) sequences, valid encodings partly consumed and "
+                       "re-read after a Seek / Tidy, long random sequences with offsets up to +-2^63) followed by typed read calls on the same stream; "
+                       "non-trivial = some call fails or is a 7-bit / length-prefixed / raw read (c12s: a Seek/Tidy/Reset precedes the reads); distinct = distinct case line")
+    chk.run_proof_gate(PROOFS)
     binary = pure.build_pure(chk)
     if binary:
-        streams = [("corpus", [c for c in pure.corpus_cases(ID) if c.startswith("c12 ")])] + gen(chk.rng, chk.tier)
+        streams = [("corpus", [c for c in pure.corpus_cases(ID) if c.startswith("c12 ") or c.startswith("c12s ")])] + gen(chk.rng, chk.tier)
         cases, model, impl = run_all(chk, binary, streams)
         try:
             canary(chk, binary)
         except Exception as ex:
             chk.infra_errors.append("canary failed to run: %r" % (ex,))
         try:
-            idx = [k for k, c in enumerate(cases) if len(c) <= 400]
+            idx = [k for k, c in enumerate(cases) if len(c) <= 400 and c.startswith("c12 ")]
             step = max(1, len(idx) // 180)
             pick = idx[::step][:200]
             n = coq_crosscheck(chk, [cases[k] for k in pick], [model[k] for k in pick])
-            chk.cov["vm_compute_crosschecked"] = n
+            idx = [k for k, c in enumerate(cases) if len(c) <= 400 and c.startswith("c12s ")]
+            step = max(1, len(idx) // 110)
+            pick = idx[::step][:120]
+            n2 = coq_crosscheck_s(chk, [cases[k] for k in pick], [model[k] for k in pick])
+            chk.cov["vm_compute_crosschecked"] = n + n2
+            chk.cov["vm_compute_crosschecked_reads_after_ops"] = n2
         except Exception as ex:
             chk.infra_errors.append("vm_compute cross-check failed: %r" % (ex,))
     chk.finish(search=search)
@@ -383,7 +573,8 @@ def search(chk):
     if not binary:
         return
     streams = gen(chk.rng.fork(), "thorough")
-    cases = [WITNESS] + [c for _, cs in streams for c in cs][:150000]
+    after = [c for n_, cs in streams for c in cs if n_ == "reads-after-seek-tidy-reset"]
+    cases = [WITNESS, WITNESS_S] + after[:30000] + [c for n_, cs in streams for c in cs if n_ != "reads-after-seek-tidy-reset"][:150000]
     impl = common.run_impl(binary, cases, env=ENV)
     for c, i in zip(cases, impl):
         mf = monitor(c, i)
@@ -395,7 +586,7 @@ def replay(chk, path):
     import json
     rep = json.load(open(path))
     binary = pure.build_pure(chk)
-    cases = [x["case"] for x in rep.get("failing_inputs", []) + rep.get("divergences", []) if isinstance(x.get("case"), str) and x["case"].startswith("c12 ")]
+    cases = [x["case"] for x in rep.get("failing_inputs", []) + rep.get("divergences", []) if isinstance(x.get("case"), str) and (x["case"].startswith("c12 ") or x["case"].startswith("c12s "))]
     impl = common.run_impl(binary, cases, env=ENV)
     model = octets.run_model_parallel(cases, nproc=1)
     bad = 0
